@@ -65,6 +65,22 @@ def _default_value(d, target):
     return ['dflt', target, {'t': target}] if d == LISTDEFAULT else d
 
 
+_PointNT = collections.namedtuple('_PointNT', 'x y')
+
+
+class _Pair2(tuple):
+    def __new__(cls, a, b):
+        return tuple.__new__(cls, (a, b))
+
+
+class _Bag(frozenset):
+    def __new__(cls, *items):
+        return frozenset.__new__(cls, items)
+
+
+CONSTANT_CONTAINER_DEFAULTS = [_PointNT(0, 'origin'), _Pair2('a', 'b'), _Bag(1, 2), collections.OrderedDict(a=1), collections.Counter('aab')]
+
+
 def _pick_default(rng, counter):
     r = rng.random()
     if r < 0.4:
@@ -73,6 +89,9 @@ def _pick_default(rng, counter):
         return LISTDEFAULT
     if r < 0.8:
         return FAILDEFAULT
+    if r < 0.87:
+        # an instance of a container SUBCLASS is a constant (only plain list / dict / tuple / set literals are rebuilt)
+        return rng.choice(CONSTANT_CONTAINER_DEFAULTS)
     counter[0] += 1
     return ('DEFAULT-LOGGED', 'd%d' % counter[0])
 OPS = {'==': operator.eq, '!=': operator.ne, '>': operator.gt, '<': operator.lt, '>=': operator.ge, '<=': operator.le}
@@ -123,7 +142,7 @@ def m_op(lhs, op, c):
 def gen_atom(rng, n, serial, log):
     i = rng.randrange(n)
     kind = rng.choice(['mexpr', 'mexpr', 'mexpr', 'mexpr2', 'mexpr-reflected', 'msub', 'mwhole', 'type', 'pattern', 'pred', 'pred',
-                       'predobj', 'partial', 'val', 'badT'])
+                       'predobj', 'partial', 'val', 'badT', 'check'])
     a = {'kind': kind, 'i': i, 'ret': 'target', 'err': 'match', 'pred': None, 'm_pure': False, 'op_ok': False}
     if kind == 'mexpr':
         op = rng.choice(list(OPS))
@@ -166,6 +185,13 @@ def gen_atom(rng, n, serial, log):
         tag = 'r%d' % serial
         a.update(name='<%s:partial t[%d]>' % (tag, i), truth=lambda t: bool(t[i]),
                  spec=functools.partial(_partial_pred, tag, i, log), pred=tag)
+    elif kind == 'check':
+        # a Check without default as an operand: it yields the target or is a rejection (a CheckError: a GlomError, not a MatchError)
+        c = rng.choice([0, 1])
+        how = rng.choice(['equal_to', 'one_of', 'validate'])
+        chk = {'equal_to': lambda: Check(T[i], equal_to=c), 'one_of': lambda: Check(T[i], one_of=(c, 'zz')),
+               'validate': lambda: Check(T[i], validate=lambda v: v == c)}[how]()
+        a.update(name='Check(T[%d], %s %d)' % (i, how, c), truth=lambda t: t[i] == c, spec=chk, err='glom')
     elif kind == 'val':
         tag = 'tag%d' % serial
         a.update(name='Val(%s)' % tag, truth=lambda t: True, spec=Val(tag), ret=tag, m_pure=True)
